@@ -164,3 +164,9 @@ func ExecChecked(dir, exe string) (Result, [4]int64) {
 }
 
 func IsLedgerReport(r Result) bool { return r.Exit == 97 || strings.Contains(r.Stderr, "VERIF-LEDGER") }
+
+// ExecNoLeak runs a program linked against the sanitizer build without leak detection
+// (a program that stops with a Laufzeitfehler does not release its memory).
+func ExecNoLeak(dir, exe string, args ...string) Result {
+	return run(dir, 20*time.Second, []string{"LOCPATH=" + Locale(), "ASAN_OPTIONS=exitcode=99:detect_leaks=0:abort_on_error=0", "UBSAN_OPTIONS=halt_on_error=1:exitcode=99:print_stacktrace=1"}, "", exe, args...)
+}
